@@ -217,6 +217,12 @@ def run(facts, rep, tier):
     rep.rule("C05-R4b", "Completeness of the answers: on the way from Graph::get_{block,inline}_references_to to the response of find-references / hints / rank there is no dropping adapter "
              "(filter, skip, take, find ...) other than the audited ones.")
     rule_r4b(facts, rep)
+    from .common import droppers_inventory
+    droppers_inventory(facts, rep, "C05-R4b", ["Server::handle_references", "Server::container_hint", "Server::block_reference_hints", "Server::refs_counter_hints", "Server::handle_inlay_hints"], {
+        ("Server::handle_references", "dedup()"): "one location per (referrer node, note): the block and the inline stream can name the same node",
+        ("Server::container_hint", "dedup()"): "sorted().dedup(): one ↖ hint per containing note",
+        ("Server::block_reference_hints", "filter_map(|c0|{self.database.graph().node_line_range(c0).map(|c1|(c0,c1.start))})"): "a hint needs a line; nodes built by refactorings in a patch graph have none",
+    }, "backlinks / reference hints")
     rep.rule("C05-R6", "= C14-R1 / C14-R5: a link url becomes a key by removing exactly one `.md` suffix - never by last-dot extension arithmetic (with_extension / file_stem), which also eats the `.2` of `notes-v1.2`.")
     from . import c14
     c14.rule_r1(facts, rep, "C05-R6")
